@@ -257,6 +257,12 @@ def s3(chk: Check, proj: Project, m, cls) -> None:
         rm = any(isinstance(s, ast.Expr) and isinstance(s.value, ast.Call) and norm(s.value) == f"self._remove({v})" for s in body)
         dl = any(isinstance(s, ast.Delete) and norm(s.targets[0]) == f"self.cache[{v}.key]" for s in body)
         chk.ob("S3", "util.cache:LRUCache.set:evicts-tail-prev", m.loc(owner) if owner is not None else m.loc(f), bool(vic) and rm and dl, "victim = self.tail.prev, unlinked and deleted from the dict" if vic and rm and dl else "the eviction does not take `self.tail.prev` and remove it from both the list and the dict")
+        guards_ = [st for st in body if isinstance(st, ast.If) and any(isinstance(x, ast.Raise) for x in st.body) and v is not None and v in norm(st.test)]
+        for gd in guards_:
+            okg = norm(gd.test) == f"{v} is None"
+            chk.ob("S3", "util.cache:LRUCache.set:victim-refused-only-if-missing", m.loc(gd), okg,
+                   f"the eviction gives up only when `{v} is None`" if okg else
+                   f"`if {short(gd.test)}: raise` refuses a victim because of its KEY: a real entry whose key equals that value (the empty string) is taken for a sentinel when it is the least recently used one - set() raises and the new value is not stored (maxsize=1: set('', x); set('a', y))")
         unb = "self.maxsize is not None" in norm(cap[0].ast)
         chk.ob("S3", "util.cache:LRUCache.set:unbounded-when-none", m.loc(owner) if owner is not None else m.loc(f), unb, "maxsize None means unbounded")
     zero = [s for s in f.body if isinstance(s, ast.If) and "self.maxsize <= 0" in norm(s.test) and s.body and isinstance(s.body[-1], ast.Return)]
@@ -346,6 +352,33 @@ def s4(chk: Check, proj: Project) -> None:
     got = norm(enclosing_stmt(g[0]).targets[0]) if isinstance(enclosing_stmt(g[0]), ast.Assign) else (norm(enclosing_stmt(g[0]).target) if isinstance(enclosing_stmt(g[0]), ast.AnnAssign) else None)
     ok = any(v is not None and norm(v) == got for _s, v in hitv) and any(isinstance(v, ast.Call) and norm(v.func) == "template_cls" for _s, v in hitv)
     chk.ob("S4", "template:cached_template:hit-returns-stored", m.loc(g[0]), ok, f"a hit returns the object the cache returned (`{got}`), a miss compiles with template_cls(...)")
+    # ... and nothing else: the returned variable has exactly these two definitions (no copy / wrapper made on the way out)
+    others = [st for st, v in hitv if not (v is not None and (norm(v) == got or (isinstance(v, ast.Call) and norm(v.func) == "template_cls")))]
+    chk.ob("S4", "template:cached_template:returns-the-cached-object-itself", m.loc(others[0]) if others else m.loc(g[0]), not others,
+           f"`{retn}` is either the cached object or the freshly compiled one that was just stored" if not others else
+           f"`{short(others[0])}` replaces the object on its way out: a repeated key no longer returns the IDENTICAL Template while it is cached (callers compare with `is`, and anything stored on the first object - the nesting flag, a test marker - is not on the second)")
+    # every input that is part of the key also reaches the compilation (otherwise two keys give the same template compiled for
+    # the wrong input - output differs from compiling afresh at every cache size)
+    ctor = [v for _s, v in hitv if isinstance(v, ast.Call) and norm(v.func) == "template_cls"]
+    if ctor:
+        passed = {x.id for a_ in list(ctor[0].args) + [k.value for k in ctor[0].keywords] for x in ast.walk(a_) if isinstance(x, ast.Name)}
+        keyed = set()
+        todo_ = [kdef] if kdef is not None else []
+        seen_ = set()
+        while todo_:
+            e_ = todo_.pop()
+            for x in ast.walk(e_):
+                if isinstance(x, ast.Name) and x.id not in seen_:
+                    seen_.add(x.id)
+                    if x.id in ps:
+                        keyed.add(x.id)
+                    for _s2, v2 in assignments(f, x.id):
+                        if v2 is not None:
+                            todo_.append(v2)
+        lost = sorted(keyed - passed - {"template_cls"})
+        chk.ob("S4", "template:cached_template:keyed-inputs-reach-the-compilation", m.loc(ctor[0]), not lost,
+               f"every keyed input ({', '.join(sorted(keyed))}) is handed to template_cls(...)" if not lost else
+               f"`{short(ctor[0])}` does not receive `{', '.join(lost)}` although the key distinguishes it: cached_template(src, {lost[0]}=E) is compiled as if {lost[0]} had not been given (e.g. with the default engine - its builtins, string_if_invalid), so the output differs from compiling afresh")
     # the decision hit / miss is the cache's answer alone: the variable is not overwritten (e.g. reset to None because some
     # attribute of the cached object differs from an argument that is NOT part of the key) before it is tested
     redef = [st for st, v in assignments(f, got)] if got else []
